@@ -15,6 +15,7 @@ pub mod eval;
 pub mod gen;
 pub mod prog;
 
+pub mod c04;
 pub mod c05;
 pub mod c10;
 pub mod c11;
